@@ -131,7 +131,10 @@ def run(spec):
         if ti in dead:
             continue
         others = [M.finished(k, o) for o in alive if o != ti]
-        stuck_terms.append(z3.And(M.stutter(k), *others))
+        for per in (1, 2, 3):
+            cyc = M.cycle(k, per)
+            if cyc is not None:
+                stuck_terms.append(z3.And(cyc, *others))
     stuck = z3.Or(stuck_terms) if stuck_terms else z3.BoolVal(False)
     race = M.H[K]["race"] if kind == "hb" else z3.BoolVal(False)
     viol = {"safe": M.any_bad(), "crash": z3.Or(M.any_bad(), stuck), "live": stuck, "hb": race}[kind]
@@ -156,7 +159,7 @@ def run(spec):
     if kind == "safe" and spec.get("selftest"):
         # translator self-test: the encoding's prediction of the final memory for a deterministic program, to be
         # compared with what the real code leaves in memory when the same program is run natively
-        r, m = ask("selftest: run to completion", [done_end])
+        r, m = ask("selftest: run to completion", [done_end] + [z3.Not(x) for x in M.spur])
         res["verdict"] = "unsat" if r == "sat" else r
         if r == "sat":
             res["selftest"] = {"final_words": [m.eval(x, model_completion=True).as_long() for x in M.W[K][: M.NW - 1]],
@@ -177,6 +180,13 @@ def run(spec):
         res["bound_ok"] = "unsat"
     res["verdict"] = r
     if r == "sat":
+        # prefer a counterexample without spurious compare_exchange_weak failures: the native replay uses the strong form
+        if any(z3.is_true(m.eval(x, model_completion=True)) for x in M.spur):
+            r_ns, m_ns = ask("violation without spurious weak-CAS failures", [viol] + [z3.Not(x) for x in M.spur])
+            if r_ns == "sat":
+                m = m_ns
+            else:
+                res["needs_spurious_failure"] = True
         res["cex"] = decode_cex(spec, w, ths, M, inv, m, kind, dead)
     if r == "unsat" and not spec.get("only_violation"):
         r3, _ = ask("reach: all threads finish", [done_end, z3.Not(viol)])
@@ -237,7 +247,9 @@ def decode_cex(spec, w, ths, M, inv, m, what, dead):
             ti = M.plan[k]
             if ti in dead:
                 continue
-            if z3.is_true(ev(M.stutter(k))) and all(z3.is_true(ev(M.finished(k, o))) for o in range(len(ths)) if o != ti and o not in dead):
+            cyc = [per for per in (1, 2, 3) if M.cycle(k, per) is not None and z3.is_true(ev(M.cycle(k, per)))]
+            if cyc and all(z3.is_true(ev(M.finished(k, o))) for o in range(len(ths)) if o != ti and o not in dead):
+                cex["spin_period"] = cyc[0]
                 a = ev(M.at_step(k, M.tmpl[ti]["spin_addr"])).as_long()
                 wv = ev(M.at_step(k, M.tmpl[ti]["spin_word"])).as_long()
                 p = ths[ti].by_id.get(ev(M.pc[k][ti]).as_long())
@@ -249,7 +261,13 @@ def decode_cex(spec, w, ths, M, inv, m, what, dead):
     if what == "hb":
         cex["witness_byte"] = ev(M.wit).as_long()
     if what == "crash":
-        cex["crash_after_steps"] = len([s for s in cex["steps"] if s["thread"] in dead])
+        vs = [s for s in cex["steps"] if s["thread"] in dead]
+        cex["crash_after_steps"] = len(vs)
+        if vs:
+            l = vs[-1]
+            d = l["desc"].split()
+            cex["victim_last"] = "%s@%s:%s:size_after=%s" % (d[0], d[2] if len(d) > 2 else "?", "ok" if l.get("ok", True) else "fail",
+                                                              (l["word_after"] >> 32) if "word_after" in l else "-")
     return cex
 
 
